@@ -13,6 +13,7 @@ JOBS.append(Job('workday.win7', 'C20/kernels.cpp', 'h_workday', 'B', defs={'WIN'
 JOBS.append(Job('base.any', 'C20/base.cpp', 'h_alarm_base', 'B', reach=['alarm_base'], timeout=600, opts={'z3-timeout': 8000}, clause='alarm base class with an arbitrary contract-obeying next-instant function: wait >= distance, next target strictly later, disable/refresh/cleanup'))
 JOBS.append(Job('oneshot.once', 'C20/base.cpp', 'h_oneshot_once', 'B', reach=['oneshot_once'], timeout=600, clause='one-shot alarm fires once'))
 JOBS.append(Job('weekly.init', 'C20/base.cpp', 'h_weekly_init', 'B', reach=['weekly_init'], timeout=600, clause='weekly alarm configuration: repeated initialize() with symbolic masks'))
+JOBS.append(Job('workday.calendar', 'C20/base.cpp', 'h_workday_calendar', 'B', reach=['workday_calendar'], timeout=900, clause='3 workday alarms on one calendar, 4 symbolic enable/disable toggles, then a calendar update (week mask or special days): exactly the enabled alarms are re-evaluated and end up armed like a freshly enabled alarm'))
 META = dict(
     explanation='Next-instant kernels (WeeklyAlarm / OneshotAlarm::calculateNextLocalTimeSec) are translated from the clang IR of the real sources to C and decided by CBMC over the full 32-bit time range with a second symbolic witness instant w (now < w < next must not match); '
                 'the div/mod-by-constant arithmetic is discharged by cvc5 --solve-bv-as-int=sum through cbmc --cvc5 (cadical for the one-shot kernel). The workday kernel runs path-wise (symir, z3) against an arbitrary calendar given by symbolic special days and week mask inside a day window. '
